@@ -155,5 +155,6 @@ def finish(prop, tier, results, explanation, assumptions, trusted_base, t0, leve
     if broken:
         for b in broken:
             print('ANALYSIS-BROKEN: ' + b)
-        return 2
+        # a violation found by an armed instance stands even when another rule lost its anchors
+        return 1 if unlisted else 2
     return 1 if unlisted else 0
